@@ -17,6 +17,17 @@ class frozenlist(list):  # type: ignore[type-arg]
     Raises a `GuppyComptimeError` for any operation that would mutate the list.
     """
 
+    #: Set once the constructor has populated the list
+    _initialised = False
+
+    def __init__(self, *args: Any, **kwargs: Any) -> None:
+        # `list.__init__` replaces the contents of an existing list, so it may only run
+        # once, when the list is constructed
+        if self._initialised:
+            raise GuppyComptimeError(ERROR_MSG)
+        super().__init__(*args, **kwargs)
+        self._initialised = True
+
     def append(self, *args: Any, **kwargs: Any) -> None:
         raise GuppyComptimeError(ERROR_MSG)
 
